@@ -5,13 +5,16 @@ SPEC = {
         "keep-set model from the statement: active-chain blocks at heights >= tip-287, and every stored block at a height above a registered prune lock "
         "(lock heights tracked by the model incl. the move-back-on-disconnect rule); the code's extra 10-block lock buffer is not required",
         "regtest -fastprune (64 KiB block files), manual-prune mode; prune locks are driven through BlockManager::UpdatePruneLock directly (no real index)",
-        "automatic pruning (target clause) is NOT exercised: the 550 MiB floor in FindFilesToPrune needs hook H2 (verif::g_min_prune_target/g_prune_buffer), "
-        "which is not in /repo yet; snapshot/background-validation clause not exercised",
+        "automatic pruning is reached through hook H2 (verif::g_min_prune_target / g_prune_buffer, guard BITCOIN_VERIF_HOOKS): targets 0.75-6.9 MiB, buffers "
+        "0-140 kB; a pass is recognised by files disappearing during a block delivery; its stop rule is judged with the node's own per-file byte accounting; "
+        "linear chain only in that mode; node out of IBD (mock clock) so that the IBD-only extra buffer is not part of the model",
+        "snapshot/background-validation clause not exercised",
         "prune lock heights >= 1 (a lock at height 0 is never generated)",
     ],
     "stages": [
-        gen("vh_c19", "c19_prune", 256, 4000, min_cases_quick=64,
-            floors={"pruned-files": 0.5, "straddling-file": 0.25, "lock": 0.4, "lock-cuts-file": 0.05, "headers-ahead": 0.1, "reorg": 0.15},
+        gen("vh_c19", "c19_prune", 160, 3000, min_cases_quick=48,
+            floors={"pruned-files": 0.5, "straddling-file": 0.25, "lock": 0.3, "lock-cuts-file": 0.05, "headers-ahead": 0.1, "reorg": 0.1,
+                    "auto-prune-event": 0.12, "auto-stopped-under-target": 0.04, "auto-stopped-no-eligible-file": 0.04},
             rule="300-620 block chains with generated block sizes on 64 KiB files; manual prunes around tip-288 and lock-11, locks, reorgs, headers ahead; "
                  "non-trivial = request reached into a file straddling the 288 boundary or cut by a lock"),
     ],
@@ -21,8 +24,9 @@ META = {
     "level_text": "Generated block-file layouts (block sizes 0.3-70 KiB on 64 KiB files, forks sharing files) on an in-process regtest node in prune mode; manual "
                   "prune requests around every boundary, prune locks registered/moved/deleted, reorgs that move locks back, headers ahead of the tip. After every "
                   "prune event a keep-set model decides which stored blocks are protected; each must still be flagged and readable from disk (block re-hashed, undo "
-                  "checksum), files lose their blocks all-or-nothing, every flagged block is readable. Exploration; the automatic-prune target clause and the "
-                  "snapshot clause are not covered yet (hook H2 missing).",
+                  "checksum), files lose their blocks all-or-nothing, every flagged block is readable. In automatic mode (hook H2 lowers the 550 MiB floor) every pass must end "
+                  "under the target or with no eligible file left, and must not go on after usage was back under the target. Exploration; the snapshot clause is "
+                  "not covered.",
     "technique": "stateful property-based testing: keep-set model vs block index flags and disk reads after each prune event",
     "level_note": "trusted base: RefLedger block tree, the harness' own record of which block was stored in which file (taken from the block index before each prune)",
 }
